@@ -3,6 +3,7 @@ import Ampy.Model.Wmo
 import Ampy.Driver.Parse
 import Ampy.Spec.C17
 import Ampy.Spec.C18
+import Ampy.Driver.Scene
 /-
 Model driver: one request per input line, one canonical answer per output line.
 Run as a compiled executable (`lake build ampydrv`) or with `lake env lean --run Main.lean`.
@@ -19,6 +20,7 @@ def handle (line : String) : String :=
     match allSome (rest.map parseInt?) with
     | some os => "SIG " ++ showBools (significantCloud os)
     | none => "bad-request"
+  | "MET" :: rest => handleMet rest
   | "SPEC17" :: rest =>
     -- SPEC17 o1 o2 ... | TFTF
     match splitTok "|" rest with
